@@ -90,10 +90,25 @@ func (c *Ctx) serveModel() (*serveModel, string) {
 		}
 		var k int64
 		var isArm bool
-		if bin.X == m.PT {
+		// the switched value: the packet type itself, or its high nibble (pktType >> 4) as an index
+		ptShift := func(v ssa.Value) (int64, bool) {
+			v = stripConv(v)
+			if v == m.PT {
+				return 0, true
+			}
+			if sh, ok := v.(*ssa.BinOp); ok && sh.Op == token.SHR && stripConv(sh.X) == m.PT {
+				if s, ok := constInt(sh.Y); ok && s >= 0 && s < 8 {
+					return s, true
+				}
+			}
+			return 0, false
+		}
+		if s, ok := ptShift(bin.X); ok {
 			k, isArm = constInt(bin.Y)
-		} else if bin.Y == m.PT {
+			k <<= uint(s)
+		} else if s, ok := ptShift(bin.Y); ok {
 			k, isArm = constInt(bin.X)
+			k <<= uint(s)
 		}
 		if !isArm {
 			continue
